@@ -202,6 +202,74 @@ pub fn generate_long_run<M: Machine>(verif_seed: u64, run: u64, max_pow10: u32) 
     }
 }
 
+/// One run of the C09 `long` configuration: 10^5 .. 3*10^5 records (so that the sample count
+/// crosses the 100 000 threshold at which the mean intervals switch from Student-t to the normal
+/// quantile), a handful of chunks of very unequal size, merges in both orientations.
+pub fn generate_long_c09<M: Machine>(verif_seed: u64, run: u64) -> Trace {
+    let tag = format!("C09/long/{}", M::name());
+    let mut r = Rng::new(mix(verif_seed, &tag, run));
+    let flt = M::FLT;
+    let positive = matches!(M::TRANSFORM, Transform::Ln | Transform::Recip);
+    let n = r.usize_in(60_000, 300_000) as u32;
+    let family = if flt == Flt::Int { r.below(10) as u8 } else { *r.pick(&[0u8, 1, 2, 3, 7, 9]) };
+    let scale_exp = if flt == Flt::Int { 0 } else { r.range(-10, 10) as i32 };
+    let n1 = if M::STREAMS == 2 { if M::LOCKSTEP { n } else { r.usize_in(60_000, 300_000) as u32 } } else { 0 };
+    let tapes = [
+        TapeSpec::Gen { family, seed: r.next_u64(), len: n, flt, positive, scale_exp },
+        TapeSpec::Gen { family: *r.pick(&[0u8, 1, 2, 7]), seed: r.next_u64(), len: n1, flt, positive, scale_exp },
+    ];
+    let workers = r.usize_in(2, 4) as u16;
+    let mut events = Vec::new();
+    // chunk sizes: a few huge ones around the 100 000 boundary and some tiny ones
+    let mut left = [n, n1];
+    let mut c = 0u32;
+    while (left[0] > 0 || left[1] > 0) && c < 64 {
+        let stream = if M::STREAMS == 2 && !M::LOCKSTEP { if left[0] == 0 { 1 } else if left[1] == 0 { 0 } else { r.below(2) as usize } } else { 0 };
+        let len = match r.below(4) {
+            0 => r.usize_in(0, 3) as u32,
+            1 => r.usize_in(99_990, 100_010) as u32,
+            2 => r.usize_in(1_000, 50_000) as u32,
+            _ => left[stream],
+        };
+        let style = r.below(M::N_STYLES as u64) as u8;
+        let dual = M::LOCKSTEP || (M::FAMILY == Family::Unpaired && unpaired_style_is_dual(style));
+        if dual {
+            let t0 = len.min(left[0]);
+            let t1 = len.min(left[1]);
+            let (t0, t1) = if M::LOCKSTEP { (t0.min(t1), t0.min(t1)) } else { (t0, t1) };
+            left[0] -= t0;
+            left[1] -= t1;
+        } else {
+            left[stream] -= len.min(left[stream]);
+        }
+        events.push(Event::Deliver { dst: (c % workers as u32) as u16, stream: stream as u8, len, style, ctor: 0 });
+        if r.chance(0.2) {
+            events.push(Event::Query { a: (c % workers as u32) as u16, confs: crate::free::draw_confs(&mut r) });
+        }
+        c += 1;
+    }
+    let mut order: Vec<u16> = (0..workers.min(c.max(1) as u16)).collect();
+    while order.len() > 1 {
+        let a = order[0];
+        let b = order.remove(1);
+        events.push(Event::Merge { a, b, op: r.below(M::N_MERGE as u64) as u8, dst: a });
+    }
+    events.push(Event::Query { a: 0, confs: vec![18, 19, 20, 0, 29] });
+    Trace {
+        property: "C09".into(),
+        config: "long".into(),
+        machine: M::name(),
+        verif_seed,
+        run_index: run,
+        exact_data: false,
+        tapes,
+        events,
+        knobs: json!({"n": [n, n1], "family": FAMILY_NAMES[family as usize % 10], "workers": workers}),
+        violation: None,
+        extra: Value::Null,
+    }
+}
+
 #[cfg(test)]
 mod tests {
     use super::*;
